@@ -180,8 +180,8 @@ def run(repo, R):
         ff = [x for x in (f, f2, f3) if any(n is node for n in ast.walk(x.node))][0]
         R.check(not problems, "FWD", ff.site, f"{short}(...) at line-site {ast.unparse(node.args[0])[:40] if node.args else ''}#{node.lineno - ff.node.lineno}",
                 f"call of {short}: " + "; ".join(problems), where=ff.where(node), expected="(…, one_density_matrix, basis, points, transform=transform)")
-    R.floor("GUARD-ROOT", n_g, 14, "guarded updates")
-    R.floor("FWD", len(sites.calls), 14, "density-primitive call sites")
+    R.floor("GUARD-ROOT", n_g, 8, "guarded updates")
+    R.floor("FWD", len(sites.calls), 8, "density-primitive call sites")
     R.extra.update({"guarded_updates": n_g, "call_sites": len(sites.calls), "alpha_beta": "symbolic"})
     R.assumptions += ["G(p,q) = G(q,p): the density matrix is symmetric (validated by the density routines)",
                       "evaluate_deriv_reduced_density_matrix / evaluate_deriv_density / evaluate_density_laplacian return G, R, LAP (decided under C06)"]
